@@ -131,6 +131,34 @@ func init() {
 			return 5
 		})
 		botAll()
+		// every owner closes every perpetual position in full (liabilities and custody of the pool go
+		// back to exactly zero), then only liquidity-pool operations follow
+		for round := 0; round < 3 && !w.Dead; round++ {
+			txs := []*chain.TxRecord{}
+			seen := map[string]bool{}
+			for _, mt := range w.App.PerpetualKeeper.GetAllMTPs(w.ReadCtx()) {
+				if seen[mt.Address] {
+					continue
+				}
+				seen[mt.Address] = true
+				if a := w.ActorByAddr(mt.Address); a != nil {
+					am := mt.Custody
+					if mt.Position == perptypes.Position_SHORT {
+						am = mt.Liabilities
+					}
+					txs = append(txs, w.Tx(a, &perptypes.MsgClose{Creator: a.S(), Id: mt.Id, Amount: am}))
+				}
+			}
+			if len(txs) == 0 {
+				break
+			}
+			w.Step(5, txs...)
+		}
+		if len(w.App.PerpetualKeeper.GetAllMTPs(w.ReadCtx())) == 0 {
+			c.Ev("all_perpetual_positions_closed")
+		}
+		ammOnly := v.Gen(w, c, gen.Mix{"swapIn1": 10, "swapOut1": 5, "joinSingle": 4, "joinAll": 3, "exit": 3})
+		ammOnly.Free(12, nil)
 		g.Free(n-4*seg, g.StdDt)
 		_ = sdk.Coin{}
 	})
